@@ -473,6 +473,7 @@ func builtinLoadString(env *LEnv, args *LVal) *LVal {
 	// stack but the stack frame TROBlock will prevent tail recursion
 	// optimization from unwinding the stack to/beyond this point.
 	env.Runtime.Stack.Top().TROBlock = true
+	verifEv(env.Runtime.Stack, "tro", 0, 0, "", "")
 	v := env.root().LoadString(_name, source.Str)
 	if v.Type == LError && v.CallStack() == nil {
 		v.SetCallStack(env.Runtime.Stack.Copy())
@@ -501,6 +502,7 @@ func builtinLoadBytes(env *LEnv, args *LVal) *LVal {
 	// stack but the stack frame TROBlock will prevent tail recursion
 	// optimization from unwinding the stack to/beyond this point.
 	env.Runtime.Stack.Top().TROBlock = true
+	verifEv(env.Runtime.Stack, "tro", 0, 0, "", "")
 	v := env.root().Load(_name, bytes.NewReader(source.Bytes()))
 	if v.Type == LError && v.CallStack() == nil {
 		v.SetCallStack(env.Runtime.Stack.Copy())
@@ -519,6 +521,7 @@ func builtinLoadFile(env *LEnv, args *LVal) *LVal {
 	// stack but the stack frame TROBlock will prevent tail recursion
 	// optimization from unwinding the stack to/beyond this point.
 	env.Runtime.Stack.Top().TROBlock = true
+	verifEv(env.Runtime.Stack, "tro", 0, 0, "", "")
 	v := env.root().LoadFile(loc.Str)
 	if v.Type == LError && v.CallStack() == nil {
 		v.SetCallStack(env.Runtime.Stack.Copy())
@@ -744,6 +747,7 @@ func builtinFunCall(env *LEnv, args *LVal) *LVal {
 	// the standard method of signaling a terminal expression to the LEnv.  We
 	// need to set the flag explicitly before env.funCall is invoked
 	env.Runtime.Stack.Top().Terminal = true
+	verifEv(env.Runtime.Stack, "term", 1, 0, "", "funcall")
 	return env.FunCall(fun, SExpr(fargs))
 }
 
@@ -773,6 +777,7 @@ func builtinApply(env *LEnv, args *LVal) *LVal {
 	// the standard method of signaling a terminal expression to the LEnv.  We
 	// need to set the flag explicitly before FunCall is invoked.
 	env.Runtime.Stack.Top().Terminal = true
+	verifEv(env.Runtime.Stack, "term", 1, 0, "", "funcall")
 
 	argcells := make([]*LVal, 0, len(fargs)+argtail.Len())
 	argcells = append(argcells, fargs...)
